@@ -133,4 +133,12 @@ theorem unix_push_comps (cur p : Bytes) (hp : p ≠ []) (hrel : isAbsolute .unix
         simpa using this
       rw [this]
 
+/-- results of the checked operations can be compared by `decide` -/
+instance : DecidableEq (Except CheckedErr Bytes) := fun a b =>
+  match a, b with
+  | .ok x, .ok y => if h : x = y then isTrue (by rw [h]) else isFalse (by intro h'; cases h'; exact h rfl)
+  | .error x, .error y => if h : x = y then isTrue (by rw [h]) else isFalse (by intro h'; cases h'; exact h rfl)
+  | .ok _, .error _ => isFalse (by intro h; cases h)
+  | .error _, .ok _ => isFalse (by intro h; cases h)
+
 end TP
